@@ -14,6 +14,8 @@ CHECK = dict(
             dict(name="udpgrid", run="^TestVerifC08UDPGrid$", quick=0, thorough=0),
             dict(name="transports", run="^TestVerifC08Transports$", quick=40000, thorough=2400000,
                  shards_quick=2, shards_thorough=8, env={"GODEBUG": "randseednop=0"}),
+            dict(name="recycle", run="^TestVerifC08Recycle$", quick=6000, thorough=400000,
+                 shards_thorough=4, env={"GODEBUG": "randseednop=0"}),
         ]),
     ],
 )
